@@ -16,7 +16,12 @@ var outerT *testing.T
 
 func TestMain(m *testing.M) { pbt.Main(m, run) }
 
-func gen(t *rapid.T) mqrig.Case { return mqrig.Gen(t, run.Thorough()) }
+func gen(t *rapid.T) mqrig.Case {
+	if rapid.IntRange(0, 3).Draw(t, "pattern") == 0 {
+		return mqrig.GenWindDown(t)
+	}
+	return mqrig.Gen(t, run.Thorough())
+}
 
 func judge(c mqrig.Case) *pbt.Verdict {
 	v := &pbt.Verdict{}
